@@ -38,6 +38,7 @@ type VerifListView struct {
 	CostCap  *big.Int
 	GasCap   uint64
 	IndexLen int
+	Index    []uint64 // the nonce heap as the array container/heap maintains
 }
 
 type VerifAccount struct {
@@ -69,7 +70,7 @@ func verifList(l *txList) *VerifListView {
 	if l == nil {
 		return nil
 	}
-	v := &VerifListView{Strict: l.strict, CostCap: new(big.Int).Set(l.costcap), GasCap: l.gascap, IndexLen: l.txs.index.Len()}
+	v := &VerifListView{Strict: l.strict, CostCap: new(big.Int).Set(l.costcap), GasCap: l.gascap, IndexLen: l.txs.index.Len(), Index: append([]uint64{}, (*l.txs.index)...)}
 	for n := range l.txs.items {
 		v.Nonces = append(v.Nonces, n)
 	}
